@@ -249,7 +249,11 @@ func (c *Ctx) Sample(v interface{}) {
 }
 
 // WantSample tells whether another sample is still wanted (avoid formatting cost).
-func (c *Ctx) WantSample() bool { c.mu.Lock(); defer c.mu.Unlock(); return len(c.samples) < c.maxSamples }
+func (c *Ctx) WantSample() bool {
+	c.mu.Lock()
+	defer c.mu.Unlock()
+	return len(c.samples) < c.maxSamples
+}
 
 // Fail reports a failing case. sig is the root-cause signature (see DESIGN §1.7), clause the
 // oracle clause, detail anything JSON-serialisable that lets `vcheck replay` re-run it.
